@@ -228,7 +228,8 @@ func (r *Run) Finish(minEvents int) {
 	defer r.mu.Unlock()
 	wall := time.Since(r.Start).Seconds()
 
-	if r.evaluations < minEvents {
+	if r.evaluations < minEvents && len(r.violations) == 0 {
+		// (a refuted run stops early on purpose and may have seen fewer cases)
 		r.broken = append(r.broken, fmt.Sprintf("observed only %d cases (< %d)", r.evaluations, minEvents))
 	}
 
